@@ -64,6 +64,8 @@ PROPS = {
                      {"kind": "script", "name": "C13KernelRace", "run": "C13KernelRace", "cmd": ["python3", "c13_kernel.py"], "env": {"VERIF_C13_RACE": "1", "VERIF_C13_RACE_PROP": "C13"}, "timeout_quick": 900, "timeout_thorough": 2400}]},
     "C14": {"jobs": [rapid("TestC14", 400, 1500, race=True, env={"GORACE": "halt_on_error=1 exitcode=66"}),
                      rapid("TestC14Fanout", 250, 1000, race=True, env={"GORACE": "halt_on_error=1 exitcode=66"}),
+                     # a driver call still in progress when the run's deadline passes: nobody writes to what the caller was handed
+                     enum("TestC14EngineOverrun", race=True, env={"GORACE": "halt_on_error=1 exitcode=66"}),
                      rapid("TestC11Alloc", 300, 2000, race=True, name="TestC11Alloc(race)", env={"GORACE": "halt_on_error=1 exitcode=66"}),
                      # documents finished by several goroutines at once (identifier generation is shared state)
                      enum("TestC16ConcurrentIDs", race=True, name="TestC16ConcurrentIDs(race)", env={"GORACE": "halt_on_error=1 exitcode=66", "VERIF_C16_DOCS": "2000"}),
